@@ -63,6 +63,18 @@ def gen_cases(rng, tier):
         cases.append({'kind': 'cc', 'conv': conv, 'norb': norb, 'mode': mode, 'n': nn, 'sz': sz, 'v': v,
                       't': rng.choice([0.0, 0.125, -0.3, 1.0, 0.7]),
                       'vec': fqeio.random_state(rng, norb, keys, density=0.8, amp=2)})
+    # every (n_alpha, n_beta) sector of 3 (thorough: 2 to 4) orbitals for every single-sector convention: the kernels share
+    # work between the spins when they deem the two string spaces equal (equal counts, equal electron numbers, ...)
+    for norb in ((3,) if tier == 'quick' else (2, 3, 4)):
+        for conv in ('alpha_beta', 'alpha', 'beta', 'dc'):
+            for na in range(norb + 1):
+                for nb in range(norb + 1):
+                    if norb == 4 and (na + nb != norb or na == nb) and rng.random() < 0.7:
+                        continue
+                    v = [[rng.choice([0, 1, -1, 2, -3]) for _ in range(norb)] for _ in range(norb)]
+                    cases.append({'kind': 'cc', 'conv': conv, 'norb': norb, 'mode': 'ns', 'n': na + nb, 'sz': na - nb, 'v': v,
+                                  't': rng.choice([0.125, -0.3, 1.0, 0.7]),
+                                  'vec': fqeio.random_state(rng, norb, [(na + nb, na - nb)], density=0.9, amp=2)})
     for _ in range(6 if tier == 'quick' else 40):
         norb = rng.randint(2, 3)
         na, nb = rng.randint(0, norb), rng.randint(0, norb)
